@@ -1352,16 +1352,11 @@ func stepLeader(r *raft, m *pb.Message) error {
 		r.bcastAppend()
 		return nil
 	case pb.MsgReadIndex:
-		// only one voting member (the leader) in the cluster
-		if r.trk.IsSingleton() {
-			if resp := r.responseToReadIndexReq(m, r.raftLog.committed); resp.GetTo() != None {
-				r.send(resp)
-			}
-			return nil
-		}
-
 		// Postpone read only request when this leader has not committed
-		// any log entry at its term.
+		// any log entry at its term. This also applies when the leader is the
+		// only voting member: until its own entry is committed, its commit index
+		// may lag behind what an earlier leadership (e.g. its previous
+		// incarnation) had already committed and exposed.
 		if !r.committedEntryInCurrentTerm() {
 			r.pendingReadIndexMessages = append(r.pendingReadIndexMessages, m)
 			return nil
@@ -2156,6 +2151,16 @@ func sendMsgReadIndexResponse(r *raft, m *pb.Message) {
 	// thinking: use an internally defined context instead of the user given context.
 	// We can express this in terms of the term and index instead of a user-supplied value.
 	// This would allow multiple reads to piggyback on the same message.
+	// If the leader is the only voting member of the cluster, there is nobody
+	// else to confirm its leadership with. Note that a leader which is not (or
+	// no longer) a voter itself must not take this shortcut: the sole voter is
+	// then some other node, which may have been elected since.
+	if _, selfVoter := r.trk.Voters[0][r.id]; selfVoter && r.trk.IsSingleton() {
+		if resp := r.responseToReadIndexReq(m, r.raftLog.committed); resp.GetTo() != None {
+			r.send(resp)
+		}
+		return
+	}
 	switch r.readOnly.option {
 	// If more than the local vote is needed, go through a full broadcast.
 	case ReadOnlySafe:
